@@ -70,28 +70,35 @@ PublishWire(p) ==
 
 (* 3.4 - 3.7, 3.11 acknowledgements: fixed header flags 0 except PUBREL (2) *)
 AckFirst == [PUBACK |-> 64, PUBREC |-> 80, PUBREL |-> 98, PUBCOMP |-> 112, UNSUBACK |-> 176]
-AckCases == {[ty |-> t, id |-> id] : t \in DOMAIN AckFirst, id \in {1, 255, 256, 65535}}
+\* id 0 stands for a message whose identifier was never set: not a packet a peer may send (2.3.1), but the message API
+\* builds it, and what Encode writes for it is 0 0 (encode direction only)
+AckCases == {[ty |-> t, id |-> id] : t \in DOMAIN AckFirst, id \in {0, 1, 255, 256, 65535}}
 AckWire(c) == <<B(AckFirst[c.ty]), B(2)>> \o Bs(U16(c.id))
 
 (* 3.8 SUBSCRIBE, 3.10 UNSUBSCRIBE: k topic filters; pattern = requested QoS of filter i *)
 \* filter i has length tl, except that the first filter has length tl1 when tl1 > 0 (a long filter followed by short
 \* ones: the remaining length crosses a varint boundary while the last list entries are shorter than the fixed header)
 TlOf(c, i) == IF i = 1 /\ c.tl1 > 0 THEN c.tl1 ELSE c.tl
+\* content of filter i: normally all filters of a request differ; with dupf = 1 they alternate between two contents, so
+\* that a request with 3 or more filters repeats filters (3.8.3 / 3.10.3 do not forbid it; every entry is answered)
+SeedOf(c, i) == 10 + (IF c.dupf = 1 THEN i % 2 ELSE i)
 LongFirst == (110..130) \cup (16365..16385)
 RECURSIVE SubTopics(_, _)
 SubTopics(i, c) ==
-  IF i > c.k THEN <<>> ELSE LP(TlOf(c, i), 10 + i) \o <<B(IF c.pat = 3 THEN i % 3 ELSE c.pat)>> \o SubTopics(i + 1, c)
-SubscribeCases == {[ty |-> "SUBSCRIBE", id |-> id, k |-> k, tl |-> tl, tl1 |-> 0, pat |-> pat] :
+  IF i > c.k THEN <<>> ELSE LP(TlOf(c, i), SeedOf(c, i)) \o <<B(IF c.pat = 3 THEN i % 3 ELSE c.pat)>> \o SubTopics(i + 1, c)
+SubscribeCases == {[ty |-> "SUBSCRIBE", id |-> id, k |-> k, tl |-> tl, tl1 |-> 0, pat |-> pat, dupf |-> 0] :
                      id \in {1, 255, 256, 65535}, k \in 1..9, tl \in {1, 2, 127, 128}, pat \in {0, 2, 3}} \cup
-                  {[ty |-> "SUBSCRIBE", id |-> 7, k |-> k, tl |-> 65535, tl1 |-> 0, pat |-> 1] : k \in {1, 3}} \cup
-                  {[ty |-> "SUBSCRIBE", id |-> 7, k |-> k, tl |-> tl, tl1 |-> l1, pat |-> 3] : k \in {2, 3}, tl \in {1, 2}, l1 \in LongFirst}
+                  {[ty |-> "SUBSCRIBE", id |-> 7, k |-> k, tl |-> 65535, tl1 |-> 0, pat |-> 1, dupf |-> 0] : k \in {1, 3}} \cup
+                  {[ty |-> "SUBSCRIBE", id |-> 7, k |-> k, tl |-> tl, tl1 |-> l1, pat |-> 3, dupf |-> 0] : k \in {2, 3}, tl \in {1, 2}, l1 \in LongFirst}
+SubscribeDupCases == {[ty |-> "SUBSCRIBE", id |-> 9, k |-> k, tl |-> tl, tl1 |-> 0, pat |-> 3, dupf |-> 1] : k \in 2..9, tl \in {1, 3}}
 SubscribeWire(c) == Frame(130, Bs(U16(c.id)) \o SubTopics(1, c))
 RECURSIVE UnsubTopics(_, _)
-UnsubTopics(i, c) == IF i > c.k THEN <<>> ELSE LP(TlOf(c, i), 10 + i) \o UnsubTopics(i + 1, c)
-UnsubscribeCases == {[ty |-> "UNSUBSCRIBE", id |-> id, k |-> k, tl |-> tl, tl1 |-> 0] :
+UnsubTopics(i, c) == IF i > c.k THEN <<>> ELSE LP(TlOf(c, i), SeedOf(c, i)) \o UnsubTopics(i + 1, c)
+UnsubscribeCases == {[ty |-> "UNSUBSCRIBE", id |-> id, k |-> k, tl |-> tl, tl1 |-> 0, dupf |-> 0] :
                        id \in {1, 255, 256, 65535}, k \in 1..9, tl \in {1, 2, 3, 127, 128}} \cup
-                    {[ty |-> "UNSUBSCRIBE", id |-> 7, k |-> k, tl |-> 65535, tl1 |-> 0] : k \in {1, 3}} \cup
-                    {[ty |-> "UNSUBSCRIBE", id |-> 7, k |-> k, tl |-> tl, tl1 |-> l1] : k \in {2, 3}, tl \in {1, 2, 3}, l1 \in LongFirst}
+                    {[ty |-> "UNSUBSCRIBE", id |-> 7, k |-> k, tl |-> 65535, tl1 |-> 0, dupf |-> 0] : k \in {1, 3}} \cup
+                    {[ty |-> "UNSUBSCRIBE", id |-> 7, k |-> k, tl |-> tl, tl1 |-> l1, dupf |-> 0] : k \in {2, 3}, tl \in {1, 2, 3}, l1 \in LongFirst}
+UnsubscribeDupCases == {[ty |-> "UNSUBSCRIBE", id |-> 9, k |-> k, tl |-> tl, tl1 |-> 0, dupf |-> 1] : k \in 2..9, tl \in {1, 3}}
 UnsubscribeWire(c) == Frame(162, Bs(U16(c.id)) \o UnsubTopics(1, c))
 
 (* 3.9 SUBACK: one return code per filter *)
@@ -105,8 +112,8 @@ EmptyFirst == [PINGREQ |-> 192, PINGRESP |-> 208, DISCONNECT |-> 224]
 EmptyCases == {[ty |-> t] : t \in DOMAIN EmptyFirst}
 EmptyWire(c) == <<B(EmptyFirst[c.ty]), B(0)>>
 
-Cases == ConnectCases \cup ConnackCases \cup PublishCases \cup AckCases \cup SubscribeCases
-         \cup UnsubscribeCases \cup SubackCases \cup EmptyCases
+Cases == ConnectCases \cup ConnackCases \cup PublishCases \cup AckCases \cup SubscribeCases \cup SubscribeDupCases
+         \cup UnsubscribeCases \cup UnsubscribeDupCases \cup SubackCases \cup EmptyCases
 Wire(c) == CASE c.ty = "CONNECT" -> ConnectWire(c)
              [] c.ty = "CONNACK" -> ConnackWire(c)
              [] c.ty = "PUBLISH" -> PublishWire(c)
@@ -126,7 +133,7 @@ PadVarint(v, pad) == IF pad = 0 THEN v
 VarLenOf(c) == LET n == Size(Wire(c)) IN IF n - 2 < 128 THEN 1 ELSE IF n - 3 < 16384 THEN 2 ELSE IF n - 4 < 2097152 THEN 3 ELSE 4
 PadWire(c, pad) == LET w == Wire(c)  vl == VarLenOf(c)  n == Size(w) - 1 - vl      \* w = first byte, vl length bytes, body
                    IN <<w[1]>> \o Bs(PadVarint(Varint(n), pad)) \o SubSeq(w, 2 + vl, Len(w))
-PadBase == {c \in PublishCases : c.pl \in {0, 1} /\ c.tl \in {1, 2, 127, 128}} \cup ConnackCases \cup AckCases \cup EmptyCases
+PadBase == {c \in PublishCases : c.pl \in {0, 1} /\ c.tl \in {1, 2, 127, 128}} \cup ConnackCases \cup {c \in AckCases : c.id > 0} \cup EmptyCases
            \cup {c \in SubscribeCases \cup UnsubscribeCases : c.k <= 2 /\ c.tl <= 2 /\ c.tl1 = 0 /\ c.id = 1}
            \cup {c \in SubackCases : c.k <= 2 /\ c.id = 1}
            \cup {c \in ConnectCases : c.ver = 4 /\ c.ka = 0 /\ c.cidl = 1 /\ c.wtl <= 1 /\ c.wml = 0 /\ c.ul <= 1 /\ c.pwl = 0}
@@ -232,7 +239,7 @@ SelfConsistent ==
   Mode = "cases" =>
     LET w == Wire(st) IN
       /\ Size(w) >= 2
-      /\ (Explicit(w) /\ st.ty # "CONNECT") => (LET p == Parse(Bytes(w)) IN p.ok /\ p.len = Len(w)
+      /\ (Explicit(w) /\ st.ty # "CONNECT" /\ ~(st.ty \in DOMAIN AckFirst /\ st.id = 0)) => (LET p == Parse(Bytes(w)) IN p.ok /\ p.len = Len(w)
                             /\ (st.ty \in DOMAIN AckFirst => p.id = st.id)
                             /\ (st.ty = "CONNACK" => p.sp = st.sp /\ p.rc = st.code)
                             /\ (st.ty = "SUBACK" => p.id = st.id /\ p.k = st.k))
